@@ -158,6 +158,27 @@ def check_quotes(run, f, cfg):
     run.floor("C04.R1", "backends", len(present), 3 if cfg in ("default", "all") else 1, cfg)
 
 
+def iden_derived(f, t, node, depth=0, seen=None):
+    """does this string expression derive from the name of an identifier (Iden::to_string / Display of an Iden), directly
+    or through locals of the function (`let (a, b) = name.split_at(i)`)"""
+    if not isinstance(node, dict) or depth > 5:
+        return False
+    seen = seen if seen is not None else set()
+    for n in walk(node):
+        if n.get("k") in ("mcall", "call"):
+            cal = n.get("callee") or ""
+            rt = f.ty(n.get("recv_ty")) if n.get("recv_ty") is not None else ""
+            if cal == IDEN + "::to_string" or (n.get("name") == "to_string" and ("dyn crate::types::Iden" in rt or rt.lstrip("&").startswith("crate::types::SeaRc<"))):
+                return True
+        if n.get("k") == "local" and n.get("name") not in seen:
+            seen.add(n["name"])
+            for l in walk(t.body):
+                if l.get("k") == "stmt_let" and l.get("init") is not None and any(b.get("k") == "bind" and b.get("name") == n["name"] for b in walk(l["pat"])):
+                    if iden_derived(f, t, l["init"], depth + 1, seen):
+                        return True
+    return False
+
+
 def check_regions(run, f, cfg, unq):
     nfn = 0
     nreg = 0
@@ -221,13 +242,16 @@ def check_regions(run, f, cfg, unq):
             # R3: raw identifiers outside quotes
             raws = []
 
-            def atom2(st, a, raws=raws):
+            def atom2(st, a, raws=raws, t=t):
                 if a[0] == "hole" and a[1] == "QUOTE_L":
                     return [True]
                 if a[0] == "hole" and a[1] == "QUOTE_R":
                     return [False]
                 if not st and a[0] == "hole" and a[1] in ("IDEN_RAW", "IDEN_DISPLAY"):
                     raws.append(a)
+                elif not st and a[0] == "hole" and a[1] in ("STR", "UNKNOWN", "DISPLAY") and iden_derived(f, t, a[2].get("node") or a[2].get("of")):
+                    # text cut out of / computed from an identifier's name (a slice, a split) written outside the quotes
+                    raws.append(("hole", "IDEN_RAW", {"what": a[2].get("what", "")}, a[3] if len(a) > 3 else None))
                 return [st]
             T.flow(s, frozenset([False]), atom2)
             seen2 = set()
